@@ -150,6 +150,49 @@ def check(ctx, name, operands, impl_fn, torch_fn, exact, reqs, meta):
         reqs.append(f'C06.dense {ptgen.enc_pt(got)}'); meta.append((case, name, gd))
 
 
+def run_unit_factors(ctx, reqs, meta):
+    """index types with a factor of ONE element that is not the unit axis (a one-component sum `0 + () + 0`, as patterned JSON
+    weights can spell it) at the start, in the middle or at the END of a product, each operand representing the same type in its own
+    way: factor by factor, or with neighbouring factors merged into one dense physical axis.  Binary operations, where, stack and
+    equal/allclose walk the two factor lists in parallel (anti-unification / unification) and must cope with one list running out
+    while only one-element factors remain in the other."""
+    from fggs.indices import ProductAxis, SumAxis, unitAxis, productAxis
+    one = lambda: SumAxis(0, unitAxis, 0)
+    def reps(nc, na, where):
+        # the type  C(nc) x A(na)  with a one-element sum factor U inserted at `where` (0 = front, 1 = middle, 2 = end)
+        out = []
+        for merge in ('none', 'A+U', 'all'):
+            c, a = PhysicalAxis(nc), PhysicalAxis(na)
+            fac = [c, a]
+            fac.insert(where, one())
+            if merge == 'none':
+                out.append((productAxis(fac), (c, a), (nc, na)))
+            elif merge == 'A+U':
+                # A and its neighbour U as one dense axis of |A| elements
+                out.append((productAxis([c, a]), (c, a), (nc, na)))
+            else:
+                m = PhysicalAxis(nc * na)
+                out.append((m, (m,), (nc * na,)))
+        return out
+    n = 6 if ctx.quick else 40
+    for _ in range(n):
+        nc, na = ctx.rng.choice([(2, 2), (2, 3), (3, 2)])
+        where = ctx.rng.choice([0, 1, 2, 2])
+        R = reps(nc, na, where)
+        for (e, pe, she), (f, pf, shf) in itertools.product(R, repeat=2):
+            t = PatternedTensor(torch.tensor([float(ctx.rng.choice([1, 2, 3, 5])) for _ in range(nc * na)]).reshape(she), pe, (e,), ctx.rng.choice([0.0, 1.0]))
+            u = PatternedTensor(torch.tensor([float(ctx.rng.choice([1, 2, 4, 7])) for _ in range(nc * na)]).reshape(shf), pf, (f,), ctx.rng.choice([0.0, 1.0]))
+            ctx.count('unit-factor-family')
+            for name, fn, g in [('add', lambda a, b: a.add(b), lambda a, b: a + b), ('mul', lambda a, b: a.mul(b), lambda a, b: a * b),
+                                ('maximum', lambda a, b: a.maximum(b), lambda a, b: torch.maximum(a, b)),
+                                ('sub', lambda a, b: a.sub(b), lambda a, b: a - b),
+                                ('equal', lambda a, b: torch.tensor(a.equal(b)), lambda a, b: torch.tensor(torch.equal(a, b))),
+                                ('stack', lambda a, b: stack([a, b.default_to(a.default)], 0) if a.default == b.default else a, lambda a, b: torch.stack([a, b], 0) if True else a)]:
+                if name == 'stack' and t.default != u.default:
+                    continue
+                check(ctx, name + '_unitfactor', [t, u], fn, g, True, reqs, meta)
+
+
 def project_checks(ctx, t, types):
     """t.project(paxes, vaxes)[idx] must be the element of t.to_dense() at the virtual index that (paxes, vaxes) assigns to idx"""
     import itertools
@@ -204,6 +247,7 @@ def run(ctx):
     if unclassified:
         ctx.fail('PatternedTensor has public operations that the check does not classify', sorted(unclassified), None, None, tags=['unclassified-op'])
     reqs, meta = [], []
+    run_unit_factors(ctx, reqs, meta)
     U, B = unary_ops(), binary_ops()
     n = 150 if ctx.quick else 1500
     for k in range(n):
